@@ -10,31 +10,67 @@ from harness import common as C
 
 THEOREMS = 'Properties/C16.v'
 CLAIM = dict(
-    text='Stabilised arithmetic: Coq theorems for every d, every rank profile, every threshold about the model '
-         'Model/Stab.v. Exactness (G = 2^p Q, v 2^p = plain scalar product along every prefix of the chain, '
-         'stab = plain when no scaling is needed, redistribution 2^(p/d) restores 2^p, orthogonalize(use_stab) '
-         'keeps 2^p Z = Y) holds for EVERY log2 oracle over every commutative ring with exact powers of two; the '
-         'size of the mantissa ([1,2) by max-modulus), the half-integer exponent of the norm, all branches of '
-         'accuracy and the shift law (rescaling a core by 2^s moves the exponent by s, mantissa identical) are '
-         'proved at R for every oracle meeting 2^p <= v < 2^(p+1). The model is tied to /repo by exact '
-         'correspondence at the exact dyadic instance (unbounded exponents; totals anywhere in 2^+-30000, d up '
-         'to 500 quick / 4000 thorough) and bit-exact PrimFloat runs of accuracy and of the final rescaling.',
-    note='Trusted: Coq kernel, vm_compute for case evaluation, the hand-written model (validated by the '
-         'correspondence), floor(np.log2(v)) meets the contract 2^p <= v < 2^(p+1) (validated on every recorded '
-         'call; it fails by one ulp exactly at v = nextafter(2^k, 0), k >= 3, where the mantissa returned is '
-         '1 - 2^-53 instead of 2 - 2^-52 and the product is still exact), orthogonalize_left/right preserve the '
-         'product of the two cores they touch (oracle contract, validated on every recorded call; proved from '
-         'the QR contract under C04), float rounding (theorems are about exact arithmetic).',
-    technique='Coq proof (induction over the chain, ring-generic + Reals) + exact dyadic correspondence + '
-              'Fraction / big-integer reference search')
+    text='Stabilised arithmetic. Coq theorems about the model Model/Stab.v (core_stab, mul_scalar / norm with use_stab, '
+         'accuracy, orthogonalize(use_stab), the final rescaling of truncate(use_stab)), for every d, every rank profile, '
+         'every threshold. '
+         '(A) For EVERY log2 oracle over every commutative ring with exact powers of two: core_stab returns G * 2^p0 = '
+         'Q * 2^p entrywise (C16_core_stab_exact); mul_scalar(use_stab) returns (v, p) with 2^p v = the plain scalar product '
+         'of C01, and the invariant holds after every prefix of the chain (C16_mul_scalar_stab, C16_mul_scalar_stab_invariant); '
+         'stabilised = plain when no scaling happens and whenever the returned exponent is 0 (C16_stab_eq_plain, '
+         'C16_stab_eq_plain_p0); orthogonalize(Y, k, use_stab) returns (Z, p) with 2^p Z = Y entrywise for every oracle pair '
+         'that keeps the product of the two cores it touches, succeeds for k <= d-1 and raises ValueError otherwise '
+         '(C16_orth_stab, C16_orth_stab_total); truncate(use_stab) returns 2^p * sweep(Z), so its entrywise error is 2^p times '
+         'the error of the rounding sweep on the stabilised tensor, given root^d = 2^p (C16_truncate_stab, C16_rescale_all, '
+         'C16_root_real). '
+         '(B) At R, for every oracle with lo * 2^p <= v < 2^(p+1) (lo = 1: exact floor(log2)): the core_stab / mul_scalar mantissa '
+         'is below the threshold (= 0 for the default threshold 0) or has modulus in [lo, 2), p = p0 + ilog2(max|G|) '
+         '(C16_core_stab_spec, C16_mul_scalar_stab_mantissa); norm(use_stab) = (z, h/2) with z >= 0, z 2^(h/2) = ||Y||, z^2 2^h = <Y,Y>, '
+         'z = 0 or lo <= z^2 < 2 (C16_norm_stab, C16_norm_stab_mantissa); accuracy: every branch of the current code (commit '
+         '0f9009d): zero difference against a non-negligible reference gives 0 = the relative distance, otherwise 1e299 / 0 '
+         'beyond exponent difference +-500, -1 for |z2| < 1e-100, and ||Y1 - Y2|| / ||Y2|| in between (C16_accuracy_stab, '
+         'C16_accuracy_zero_difference); the shift law: scaling one core by 2^s moves the exponent by s (norm: by s) and leaves '
+         'the mantissa identical, for the exact contract, threshold 0 and a non-vanishing product (C16_stab_shift, '
+         'C16_stab_shift_norm). '
+         'PARTIAL: C16_accuracy_saturation_sound (the saturation branches are taken only when the true relative distance is '
+         'beyond 2^+-500) is proved for mantissas with z > 0, 1 <= z^2 < 2, which C16_norm_stab_mantissa delivers for a '
+         'tensor meeting its structural hypotheses; that Y1 - Y2 (Model/ActOne.sub) meets them is not proved. "Within the '
+         'requested accuracy" of truncate(use_stab) is reduced by C16_truncate_stab to the accuracy of the sweep (property C02), '
+         'not re-proved here. All theorems are about exact arithmetic. '
+         'VALIDATED NUMERICALLY ONLY (every run, on /repo): exact equality of model and implementation at the exact dyadic '
+         'instance (unbounded exponents) for core_stab, mul_scalar(use_stab) and norm(use_stab) on rank-1 tensors with totals '
+         'anywhere in 2^+-30000 and beyond (d up to 500 quick / 4000 thorough), 1e-12 agreement for ranks up to 3 and generic '
+         '53-bit mantissas; orthogonalize(use_stab) and the orthogonalisation step of truncate(use_stab) replayed exactly on the '
+         'dyadic model with the recorded QR / RQ calls as argument-checking oracles; bit-exact PrimFloat runs of accuracy '
+         '(recorded norms of real tensor pairs steered over every branch and both +-500 boundaries, and prescribed norm results '
+         'including inf / NaN / |z2| around 1e-100) and of the final rescaling of truncate(use_stab); a big-integer reference '
+         'search of every clause on the implementation (mantissa ranges, value, accuracy vs the exact relative distance, '
+         'stab = plain, shift law, exact distance of orthogonalize / truncate results).',
+    note='Trusted: Coq kernel, vm_compute for case evaluation, the hand-written model (validated by the correspondence), '
+         'floor(np.log2(v)) meets the contract lo * 2^p <= v < 2^(p+1) with lo = 1 - 2^-40 (validated on every recorded call: '
+         'np.log2 is correctly rounded, so for v within about |k| * 2^-53 below 2^k it returns k and the mantissa comes out in '
+         '[1 - 2^-40, 1); such calls are recognised and the case is skipped, the product mantissa * 2^p stays exact), '
+         'orthogonalize_left/right preserve the product of the two cores they touch (oracle contract, validated on every '
+         'recorded call; proved from the QR contract under C04), (2**(p/d))**d = 2**p (validated on every recorded value), '
+         'float rounding / underflow (theorems are about exact arithmetic). KNOWN FINDING (known_findings.json, key '
+         'C16/stab-mantissa-underflow-across-blocks): the float implementation keeps one exponent for the whole partial-product '
+         'vector, so a rank component more than 2^1074 below the largest one on some bond underflows and is lost (d = 21 '
+         'regression input in the search); generators keep the other families clear of it. FIXED during this round: 0f9009d '
+         '(accuracy(Y, Y) = 1e299 for a tiny last core), found by the C16 search, model and theorems updated, reverting it is '
+         'detected. Relative distances below about 1e-8 are not resolved by accuracy (cancellation in <Y1-Y2, Y1-Y2>): the '
+         'search allows the absolute error 1e-12 * (|Y1|^2 + 2|<Y1,Y2>| + |Y2|^2) / |Y2|^2 on the squared result.',
+    technique='Coq proof (induction over the chain, ring-generic + Reals) + exact dyadic correspondence + bit-exact PrimFloat '
+              'correspondence + Fraction / big-integer reference search')
 TRUSTED = ['Coq 8.16.1 kernel + vm_compute (case evaluation only)',
            'hand-written model Model/Stab.v tied to core.py / act_one.py / act_two.py / transformation.py by exact '
-           'correspondence at the dyadic instance Num/InstDy.v',
-           'oracle contract ilog2: floor(np.log2(v)) = p with 2^p <= v < 2^(p+1) (validated on every recorded call)',
+           'correspondence at the dyadic instance Num/InstDy.v and bit-exact correspondence at the PrimFloat instance Num/InstF.v',
+           'oracle contract ilog2: floor(np.log2(v)) = p with lo * 2^p <= v < 2^(p+1), lo = 1 - 2^-40 (validated on every '
+           'recorded call; calls with v within 2^-40 below a power of two are skipped)',
            'oracle contract orth_l / orth_r: orthogonalize_left / orthogonalize_right keep the product of the two '
            'cores they touch and their outer dimensions (validated on every recorded call)',
            'oracle contract root: (2**(p/d))**d = 2**p (validated on every recorded value)',
-           'IEEE-754 rounding is not modelled: theorems speak about exact arithmetic; numpy and PrimFloat agree '
+           '2.**(k + 0.5) = ldexp(sqrt(2), k) in the C library (the model writes the half-integer power this way; every '
+           'accuracy case compares the result bit for bit)',
+           'IEEE-754 rounding and underflow are not modelled: theorems speak about exact arithmetic; numpy and PrimFloat agree '
            'bit for bit on + * / sqrt']
 TIME_LIMIT = {'quick': 900, 'thorough': 5400}
 
@@ -75,6 +111,18 @@ Definition orth_run (Y : list (core Dy)) (k : nat) (recL recR : list (core Dy * 
   | Ok (Zm, p) => [(0, 0); (p, nbad Zm Zi)]
   | Err e => [(err_code e, 0)]
   end.
+(* replayed oracle that also CHECKS its arguments: the c-th recorded call is ((G1, G2), (H1, H2)); the recorded
+   outputs are returned only if the model hands the oracle exactly the cores the implementation handed to
+   orthogonalize_left / orthogonalize_right (otherwise an empty core, which shows up as a mismatch) *)
+Definition orec := ((core Dy * core Dy) * (core Dy * core Dy))%type.
+Definition orth_chk (rec : list orec) (off c : nat) (G1 G2 : core Dy) : core Dy * core Dy :=
+  let r := nth (c - off) rec ((dcore, dcore), (dcore, dcore)) in
+  if core_eqb G1 (fst (fst r)) && core_eqb G2 (snd (fst r)) then snd r else (dcore, dcore).
+Definition orth_run2 (Y : list (core Dy)) (k : nat) (recL recR : list orec) (Zi : list (core Dy)) : list (Z * Z) :=
+  match orthogonalize_stab ODy ilog2_dy Dy_0 (orth_chk recL 0) (orth_chk recR k) Y k with
+  | Ok (Zm, p) => [(0, 0); (p, nbad Zm Zi)]
+  | Err e => [(err_code e, 0)]
+  end.
 '''
 
 HEADER_F = r'''From Coq Require Import List ZArith Bool Floats.
@@ -93,6 +141,11 @@ Definition core_eqF (G H : core float) : bool :=
 Definition resc (c : float) (Zp W : list (core float)) : Z * Z :=
   (Z.of_nat (length (filter (fun gh => negb (core_eqF (fst gh) (snd gh))) (combine (rescale_all OF c Zp) W))),
    Z.of_nat (length Zp) - Z.of_nat (length W)).
+(* float core from its flat C-order list of entries *)
+Definition FC (r1 n r2 : nat) (cs : list float) : core float :=
+  mkcore r1 n r2 (fun a i b => nth ((a * n + i) * r2 + b)%nat cs 0%float).
+Definition accl (z1 : float) (h1 : Z) (z2 : float) (h2 : Z) : list (Z * Z) := [acc z1 h1 z2 h2].
+Definition rescl (c : float) (Zp W : list (core float)) : list (Z * Z) := [resc c Zp W].
 '''
 assert float.fromhex('0x1.31cfd3999f7b0p+993') == 1e299 and float.fromhex('0x1.bff2ee48e053p-333') == 1e-100
 
@@ -120,6 +173,12 @@ def dyl(x):
 
 def pair(me):
     return f'({C.zlit(me[0])}, {C.zlit(me[1])})'
+
+
+# np.log2 is correctly rounded, so for v just below a power of two, v >= 2^k * (1 - |k| * 2^-53) roughly, log2(v) rounds
+# to k and floor(log2(v)) = k = exact + 1: the mantissa returned is then in [1 - 2^-40, 1) instead of [1, 2) (the product
+# mantissa * 2^p is still exact).  Such calls are recognised (mantissa of v above NEAR_POW2) and the case is skipped.
+NEAR_POW2 = 1 - 2.0 ** -40
 
 
 def floor_log2(x):
@@ -186,8 +245,9 @@ def tt_desc(Y):
     return [G.desc() for G in Y]
 
 
-def exact_dot(Y1, Y2):
-    """exact scalar product of two TT-tensors given as lists of (int object array, exponent): (S, E), value S*2^E"""
+def exact_dot(Y1, Y2, track=None):
+    """exact scalar product of two TT-tensors given as lists of (int object array, exponent): (S, E), value S*2^E.
+    [track]: list that receives floor(log2(max |entry|)) of every partial product (None where it vanishes)"""
     V = np.array([[1]], dtype=object)
     E = 0
     for (M1, e1), (M2, e2) in zip(Y1, Y2):
@@ -202,6 +262,8 @@ def exact_dot(Y1, Y2):
         g = 0
         for x in V.ravel():
             g |= abs(int(x))
+        if track is not None:
+            track.append(E + g.bit_length() - 1 if g else None)
         if g:
             t = (g & -g).bit_length() - 1
             if t:
@@ -318,18 +380,53 @@ def gen_small(rng, d, mode, rmax=2, nmax=2, vals=(-5, -3, -1, 1, 3, 5, 1, -1, 2,
     return Y
 
 
-def gen_float(rng, d, mode, rmax=2, nmax=2, like=None):
-    """generic 53-bit mantissas; [like] = a tensor whose shape and ranks are reused"""
+def gen_float(rng, d, mode, rmax=2, nmax=2, like=None, n0=None, lo=-1.0, same_scales=False):
+    """generic 53-bit mantissas; [like] = a tensor whose shape and ranks are reused; [n0] = size of the first mode;
+    lo = 0.1 gives positive entries (no cancellation anywhere); same_scales: the per-core scales of [like] are reused
+    (up to 2^+-2), so that the two tensors stay comparable along the whole chain"""
     r = rank_profile(rng, d, rmax)
     Y = []
     for j in range(d):
         if like is not None:
             r1, n, r2 = like[j].r1, like[j].n, like[j].r2
         else:
-            r1, n, r2 = r[j], rng.randint(1, nmax), r[j + 1]
-        A = np.array([rng.uniform(-1, 1) for _ in range(r1 * n * r2)]).reshape(r1, n, r2) * 2.0 ** scale_of(rng, mode)
-        Y.append(Core(r1, n, r2, arr=A))
+            r1, n, r2 = r[j], (n0 if (j == 0 and n0) else rng.randint(1, nmax)), r[j + 1]
+        sc = scale_of(rng, mode)
+        if same_scales and like is not None:
+            sc = getattr(like[j], 'sc', sc) + rng.randint(-2, 2)
+        A = np.array([rng.uniform(lo, 1) for _ in range(r1 * n * r2)]).reshape(r1, n, r2) * 2.0 ** sc
+        G = Core(r1, n, r2, arr=A)
+        G.sc = sc
+        Y.append(G)
     return Y
+
+
+def scaled(Y, shifts):
+    """the tensor with core j multiplied by 2^shifts[j] (exact)"""
+    out = []
+    for G, s in zip(Y, shifts):
+        if G.cs is not None:
+            out.append(Core(G.r1, G.n, G.r2, k=G.k + s, cs=list(G.cs)))
+        else:
+            A = np.ldexp(G.arr, int(s))
+            assert np.all(np.isfinite(A))
+            out.append(Core(G.r1, G.n, G.r2, arr=A))
+    return out
+
+
+def spread_shift(Y, t):
+    """the tensor 2^t * Y with the factor spread evenly over the cores (keeps every core far inside the double range)"""
+    d = len(Y)
+    q, r = divmod(abs(int(t)), d)
+    sg = 1 if t >= 0 else -1
+    return scaled(Y, [sg * (q + (1 if j < r else 0)) for j in range(d)])
+
+
+def with_zero_core(Y, j):
+    Z = list(Y)
+    G = Y[j]
+    Z[j] = Core(G.r1, G.n, G.r2, arr=np.zeros((G.r1, G.n, G.r2)))
+    return Z
 
 
 def same_shape(rng, Y, vals=(-5, -3, -1, 1, 3, 5, 1, -1, 2, 0), mode='mixed', rmax=2):
@@ -359,11 +456,23 @@ class Rec:
         self.orth_l = []    # (G1, G2, Q, G2')
         self.orth_r = []
         self.norms = []
+        self.orth_out = []  # (Z, p) returned by transformation.orthogonalize(use_stab=True) (as called by truncate)
 
     def __enter__(self):
         tn, T = self.tn, self.tn.transformation
         self.saved = (tn.core_stab, T.orthogonalize_left, T.orthogonalize_right, tn.norm)
+        self.saved_orth = (T.orthogonalize, tn.orthogonalize)
         cs, ol, orr, nm = self.saved
+        og = T.orthogonalize
+
+        def orthogonalize(Y, k=None, use_stab=False):
+            r = og(Y, k, use_stab)
+            if use_stab:
+                self.orth_out.append(([G.copy() for G in r[0]], r[1]))
+            return r
+        T.orthogonalize = orthogonalize
+        if tn.orthogonalize is og:
+            tn.orthogonalize = orthogonalize
 
         def core_stab(G, p0=0, *a, **k):
             Q, p = cs(G, p0, *a, **k)
@@ -394,6 +503,7 @@ class Rec:
     def __exit__(self, *a):
         tn, T = self.tn, self.tn.transformation
         tn.core_stab, T.orthogonalize_left, T.orthogonalize_right, tn.norm = self.saved
+        T.orthogonalize, tn.orthogonalize = self.saved_orth
 
     def log2_contract(self):
         """(number of calls, number of calls off by the known one-ulp rounding, list of genuine violations)"""
@@ -407,7 +517,7 @@ class Rec:
             fl = floor_log2(v)
             if dp == fl:
                 continue
-            if dp == fl + 1 and math.frexp(v)[0] == 1 - 2.0 ** -53:
+            if dp == fl + 1 and math.frexp(v)[0] >= NEAR_POW2:
                 ulp += 1
             else:
                 bad.append((v, dp))
@@ -461,6 +571,10 @@ def correspondence(R, ctx):
     hints += corr_core_stab(R, tn, rng, th)
     hints += corr_mulscal_exact(R, tn, rng, th)
     hints += corr_mulscal_tol(R, tn, rng, th)
+    hints += corr_accuracy(R, tn, rng, th)
+    hints += corr_accuracy_branches(R, tn, rng, th)
+    hints += corr_orth(R, tn, rng, th)
+    hints += corr_truncate(R, tn, rng, th)
     return hints
 
 
@@ -532,15 +646,17 @@ def corr_mulscal_exact(R, tn, rng, th):
     """rank 1, exact: every float operation is exact, so (mantissa, exponent) must be identical to the dyadic model.
     Totals anywhere in 2^+-30000 (norm) / 2^+-60000 (scalar product); tiny per-core scales; zero products."""
     cases = []
-    dist = dict(d=[], total_log2=[], tiny_scale=0, zero_product=0, norm_exact_sqrt=0, norm_float_sqrt=0,
-                plain_checked=0, log2_calls=0, log2_ulp_skipped=0)
+    dist = dict(d=[], total_log2=[], tiny_scale=0, zero_product=0, plain_checked=0, log2_calls=0, log2_ulp_skipped=0)
+    ndist = dict(cases=0, d=[], norm_exact_sqrt=0, norm_float_sqrt=0, odd_h=0, even_h=0)
+    nbad, nsample = [], None
     dmax = 4000 if th else 500
     plan = []
     for mode in ['up', 'down', 'mixed', 'zero']:
         for d in [2, 3, 5, 17, 120, dmax]:
-            plan.append((mode, d))
+            if th or not (mode == 'zero' and d == dmax):
+                plan.append((mode, d))
     plan += [('tiny', d) for d in (2, 3, 4, 4, 8)] + [('big', d) for d in (2, 3, 5)] + [('unit', d) for d in (2, 4, 9, 30)]
-    plan += [(rng.choice(['up', 'down', 'mixed']), rng.randint(2, dmax)) for _ in range(40 if th else 10)]
+    plan += [(rng.choice(['up', 'down', 'mixed']), rng.randint(2, dmax)) for _ in range(40 if th else 6)]
     for mode, d in plan:
         zero_at = rng.randrange(d) if rng.random() < 0.12 else None
         # scalar product of two different rank-1 tensors
@@ -607,31 +723,45 @@ def corr_mulscal_exact(R, tn, rng, th):
                 dist['plain_checked'] += 1
                 if m['plain'] != (math.ldexp(mm, me + mp) if mm else 0.0):
                     why = 'plain mul_scalar differs from stabilised result although representable'
-        if why is None and m['kind'] == 'norm':
+        if m['kind'] == 'norm':
+            # norm(use_stab) = (z, h/2): the model prints the numerator h of the half-integer exponent
+            ndist['cases'] += 1
+            ndist['d'].append(m['d'])
+            nwhy = None
             (zm, ze), (zh, sq) = nv
             z, ph = m['norm']
-            if z == 'raised' or 2 * ph != zh:
-                why = 'norm(use_stab): exponent is not p/2'
+            if z == 'raised':
+                nwhy = 'norm(use_stab) raised ' + str(ph)
+            elif 2 * ph != zh:
+                nwhy = 'norm(use_stab): exponent is not p/2 of the model'
             else:
+                ndist['odd_h' if zh % 2 else 'even_h'] += 1
                 (mm, me), _ = v
                 vf = math.ldexp(mm, me)
                 if sq == 1:
-                    dist['norm_exact_sqrt'] += 1
+                    ndist['norm_exact_sqrt'] += 1
                     if canon(z) != (zm, ze):
-                        why = 'norm(use_stab): mantissa differs from the exact square root of the model'
+                        nwhy = 'norm(use_stab): mantissa differs from the exact square root of the model'
                 else:
-                    dist['norm_float_sqrt'] += 1
+                    ndist['norm_float_sqrt'] += 1
                     if z != (math.sqrt(vf) if vf > 0 else 0.0):
-                        why = 'norm(use_stab): mantissa is not sqrt(v)'
+                        nwhy = 'norm(use_stab): mantissa is not sqrt(v)'
+            if nwhy:
+                nbad.append(dict(stream='norm_stab', why=nwhy, input=['norm', m['mode'], m['input'][2]], model=[v, nv],
+                                 impl=[m['impl'], m.get('norm')]))
+            elif nsample is None:
+                nsample = dict(stream='norm_stab', d=m['d'], model=nv, impl=m['norm'])
         if why:
             bad.append(dict(stream='mulscal_exact', why=why, input=m['input'], model=[v, nv], impl=[m['impl'], m.get('norm')]))
     dist['d'] = sorted(set(dist['d']))
+    ndist['d'] = sorted(set(ndist['d']))
     tl = [x for x in dist['total_log2'] if x is not None]
     dist['total_log2'] = [min(tl), max(tl)] if tl else []
-    _corr_add(R, 'mulscal_exact', len(meta), bad, 'exact equality of (mantissa, exponent); norm mantissa = sqrt, exponent p/2; '
-              'plain == stab where representable', dist,
+    _corr_add(R, 'mulscal_exact', len(meta), bad, 'exact equality of (mantissa, exponent); plain == stab where representable', dist,
               sample=dict(stream='mulscal_exact', input=meta[0]['input'][:2], model=tup(vals[0]), impl=meta[0]['impl']) if meta else None)
-    return bad
+    _corr_add(R, 'norm_stab', ndist.pop('cases'), nbad, 'exponent numerator h exact; mantissa = exact dyadic square root of the '
+              'model where the model value is a square, = IEEE sqrt of the (exactly equal) mantissa otherwise', ndist, sample=nsample)
+    return bad + nbad
 
 
 def corr_mulscal_tol(R, tn, rng, th):
@@ -687,10 +817,1118 @@ def corr_mulscal_tol(R, tn, rng, th):
     return bad
 
 
-def search(R, ctx, deep, hints):
-    R.search.append(dict(name='placeholder', evaluations=0, failures=0, deep=deep))
+# ----------------------------------------------------------------------------
+# accuracy: bit-exact PrimFloat runs of the decision / saturation logic
+# ----------------------------------------------------------------------------
+
+def fl(x):
+    """float -> PrimFloat literal usable under Z_scope"""
+    return f'({C.flit(float(x))})%float'
+
+
+def same_float(a, b):
+    a, b = float(a), float(b)
+    return (math.isnan(a) and math.isnan(b)) or a == b
+
+
+def acc_call(tn, a, b):
+    """teneva.accuracy with teneva.norm recorded: (result | 'raised ...', [(z1, p1), (z2, p2)])"""
+    with Rec(tn) as rec:
+        try:
+            with np.errstate(all='ignore'):
+                r = tn.accuracy(a, b)
+            r = float(r)
+        except Exception as e:
+            r = 'raised ' + repr(e)[:80]
+    return r, rec.norms
+
+
+def acc_term(norms):
+    (z1, p1), (z2, p2) = norms
+    if not (float(2 * p1).is_integer() and float(2 * p2).is_integer()):
+        return None
+    return f'accl {fl(z1)} {C.zlit(int(2 * p1))} {fl(z2)} {C.zlit(int(2 * p2))}'
+
+
+def steer(tn, rng, make_base, target, tries=14):
+    """pairs (Y1, Y2) with 2*(p1 - p2) = target: scale Y1 by a power of two spread over its cores (closed loop on the
+    exponents the implementation itself returns; the parity of the difference is fixed by the mantissas, so several
+    bases are tried).  Returns the last pair if the target is missed: the achieved value is what gets recorded."""
+    Y1 = Y2 = None
+    for _ in range(tries):
+        Y1, Y2 = make_base()
+        r, norms = acc_call(tn, tt_np(Y1), tt_np(Y2))
+        if len(norms) != 2 or not float(2 * (norms[0][1] - norms[1][1])).is_integer():
+            return Y1, Y2
+        D0 = int(2 * (norms[0][1] - norms[1][1]))
+        if (target - D0) % 2:
+            continue
+        t = (target - D0) // 2
+        if abs(t) > 400 * len(Y1):
+            continue
+        return spread_shift(Y1, t), Y2
+    return Y1, Y2
+
+
+def corr_accuracy(R, tn, rng, th):
+    """accuracy(Y1, Y2) on real tensors: teneva.norm is recorded during the call, the model's accuracy_of runs on the
+    recorded (z1, p1), (z2, p2) at the PrimFloat instance, results are compared bit for bit.  Families steer
+    D = 2*(p1 - p2) over: < -1000, the -1000/-1001 boundary, moderate, the +1000/+1001 boundary, > 1000
+    (the code compares p1 - p2 = D/2 with +-500); zero Y2 (exponent frozen where the product vanished), identical
+    tensors (zero difference), zero / zero.  |z2| < 1e-100 with z2 != 0 cannot come out of norm(use_stab) (the
+    mantissa is 0 or in [1, sqrt 2)): that branch is only reached by z2 = 0 here and by the synthetic stream."""
+    BND = [998, 999, 1000, 1001, 1002, 1003]
+    cases = []
+    ds = [2, 3, 4, 6, 9, 14]
+
+    def base_disjoint():
+        d = rng.choice(ds)
+        Y1 = gen_float(rng, d, 'unit', rmax=2, nmax=2, n0=2)
+        Y2 = gen_float(rng, d, 'unit', rmax=2, nmax=2, like=Y1)
+        Y1[0].arr[:, 1, :] = 0.0
+        Y2[0].arr[:, 0, :] = 0.0
+        return spread_shift(Y1, 12 * d), Y2      # Y1 dominates: the difference norm scales exactly with Y1
+
+    def base_zero_y2():
+        d = rng.choice(ds)
+        Y1 = gen_float(rng, d, 'unit', rmax=2, nmax=2)
+        Y2 = gen_float(rng, d, rng.choice(['unit', 'mixed']), rmax=2, nmax=2, like=Y1)
+        return Y1, with_zero_core(Y2, rng.randrange(d) if rng.random() < 0.5 else 0)
+
+    for rep in range(3 if th else 1):
+        for tgt in BND + [40, 300, 700, 950, 1100, 1400]:
+            cases.append(('disjoint', tgt) + steer(tn, rng, base_disjoint, tgt))
+        for tgt in [-x for x in BND] + BND + [-1400, -1100, -700, -300, 0, 1, 300, 700, 1100]:
+            cases.append(('zero_y2', tgt) + steer(tn, rng, base_zero_y2, tgt))
+        # identical tensors: the difference vanishes at the last core, its exponent misses that core's scale k
+        for k in (-505, -501, -500, -499, -30, 0, 30, 499, 505):
+            d = rng.choice(ds)
+            Y = gen_float(rng, d, 'unit', rmax=2, nmax=2)
+            Y = scaled(Y, [0] * (d - 1) + [k])
+            cases.append(('identical', -2 * k, Y, Y))
+        # nearby tensors (one core perturbed), unrelated tensors, zero / zero, long chains
+        for _ in range(6):
+            d = rng.choice(ds)
+            Y2 = gen_float(rng, d, 'mixed', rmax=2, nmax=2)
+            Y1 = [Core(G.r1, G.n, G.r2, arr=G.arr.copy()) for G in Y2]
+            j = rng.randrange(d)
+            Y1[j].arr *= (1 + rng.choice([0.5, 0.25, 2.0 ** -8, -0.5]))
+            cases.append(('near', None, Y1, Y2))
+        for d, mode in [(3, 'mixed'), (7, 'up'), (40, 'down'), (300 if not th else 1500, 'mixed'), (150, 'up')]:
+            Y1 = gen_float(rng, d, mode, rmax=2, nmax=2)
+            Y2 = gen_float(rng, d, mode, rmax=2, nmax=2, like=Y1)
+            cases.append(('generic', None, Y1, Y2))
+        Y = gen_float(rng, 3, 'unit')
+        cases.append(('zero_zero', None, with_zero_core(Y, 1), with_zero_core(Y, 0)))
+    terms, meta = [], []
+    dist = dict(families={}, D_hit=[], results=dict(big=0, zero=0, minus1=0, value=0), d=[])
+    for fam, tgt, Y1, Y2 in cases:
+        r, norms = acc_call(tn, tt_np(Y1), tt_np(Y2))
+        m = dict(fam=fam, target=tgt, impl=r, norms=norms, input=['accuracy', fam, tt_desc(Y1), None if Y2 is Y1 else tt_desc(Y2)])
+        dist['families'][fam] = dist['families'].get(fam, 0) + 1
+        dist['d'].append(len(Y1))
+        t = acc_term(norms) if len(norms) == 2 else None
+        m['term_ok'] = t is not None
+        terms.append(t or 'accl 0%float 0 0%float 0')
+        meta.append(m)
+    vals = C.run_cases('C16_accuracy', HEADER_F, terms, chunk=40)
+    bad = []
+    for m, v in zip(meta, vals):
+        R.add_distinct(('accuracy', m['input']))
+        why = None
+        if isinstance(m['impl'], str):
+            why = 'accuracy ' + m['impl']
+        elif not m['term_ok']:
+            why = f'accuracy did not call norm(use_stab=True) twice with half-integer exponents: {m["norms"]}'
+        else:
+            mv = C.float_of_show(tuple(v[0]))
+            D = int(2 * (m['norms'][0][1] - m['norms'][1][1]))
+            dist['D_hit'].append(D)
+            key = 'big' if m['impl'] == 1e299 else 'minus1' if m['impl'] == -1 else 'zero' if m['impl'] == 0 else 'value'
+            dist['results'][key] += 1
+            if not same_float(mv, m['impl']):
+                why = f'accuracy = {m["impl"]!r} but the model accuracy_of on the recorded norms gives {mv!r} (D = {D})'
+        if why:
+            bad.append(dict(stream='accuracy', why=why, input=m['input'], model=v, impl=[m['impl'], m['norms']]))
+    Ds = sorted(set(dist['D_hit']))
+    dist['D_hit'] = dict(min=Ds[0] if Ds else None, max=Ds[-1] if Ds else None,
+                         boundary=[x for x in Ds if 996 <= abs(x) <= 1004], distinct=len(Ds))
+    dist['d'] = sorted(set(dist['d']))
+    _corr_add(R, 'accuracy', len(meta), bad, 'bit-exact PrimFloat (model accuracy_of on the recorded norms)', dist,
+              sample=dict(stream='accuracy', family=meta[0]['fam'], norms=meta[0]['norms'], impl=meta[0]['impl'],
+                          model=vals[0]) if meta else None)
+    return bad
+
+
+class FakeNorm:
+    """teneva.norm replaced by a feeder of prescribed (z, p) pairs: drives the branch logic of accuracy directly"""
+
+    def __init__(self, tn, vals):
+        self.tn, self.vals = tn, list(vals)
+
+    def __enter__(self):
+        self.saved = self.tn.norm
+        self.tn.norm = lambda Y, use_stab=False: self.vals.pop(0)
+        return self
+
+    def __exit__(self, *a):
+        self.tn.norm = self.saved
+
+
+def acc_synth(tn, z1, p1, z2, p2):
+    one = [np.ones((1, 1, 1))]
+    with FakeNorm(tn, [(z1, p1), (z2, p2)]) as f:
+        try:
+            with np.errstate(all='ignore'):
+                r = float(tn.accuracy(one, [np.ones((1, 1, 1))]))
+        except Exception as e:
+            r = 'raised ' + repr(e)[:80]
+        left = len(f.vals)
+    return r, left
+
+
+def corr_accuracy_branches(R, tn, rng, th):
+    """every branch of accuracy with prescribed norm results (teneva.norm is replaced by a feeder while accuracy runs):
+    exponent differences at and around +-500 (half-integers included), infinite and NaN mantissas, |z2| at and below
+    1e-100, negative z2.  Bit-exact against accuracy_of at the PrimFloat instance."""
+    tiny = 1e-100
+    Z1 = [0.0, 1.0, math.sqrt(2.0), 1.2345678901234567, 1.9999999999999998, float('inf'), 1e-101, float('nan'), 3.5e200]
+    Z2 = [0.0, tiny, math.nextafter(tiny, 0.0), math.nextafter(tiny, 1.0), 1e-101, 1.0, 1.3141592653589793,
+          float('inf'), -1.5, -1e-101, float('nan'), 2.5e-200]
+    DS = [-2001, -1003, -1002, -1001, -1000, -999, -998, -501, -500, -101, -100, -3, -1, 0, 1, 2, 77, 100, 101, 500, 501,
+          998, 999, 1000, 1001, 1002, 1003, 2001]
+    items = []
+    dist = dict(z1=len(Z1), z2=len(Z2), D=len(DS), results=dict(big=0, zero=0, minus1=0, value=0, nan=0, inf=0))
+    for z1 in Z1:
+        for z2 in Z2:
+            for D in DS:
+                if not th and rng.random() < 0.7 and abs(abs(D) - 1000) > 3:
+                    continue
+                h2 = rng.choice([0, -58001, 24690, 7, -60000])
+                h1 = h2 + D
+                r, left = acc_synth(tn, np.float64(z1), h1 / 2, np.float64(z2), h2 / 2)
+                items.append(dict(term=f'accl {fl(z1)} {C.zlit(h1)} {fl(z2)} {C.zlit(h2)}', impl=r, left=left,
+                                  input=['accuracy_of', float(z1).hex() if math.isfinite(z1) else repr(z1), h1,
+                                         float(z2).hex() if math.isfinite(z2) else repr(z2), h2]))
+    vals = C.run_cases('C16_accbr', HEADER_F, [it['term'] for it in items], chunk=700)
+    bad = []
+    for it, v in zip(items, vals):
+        R.add_distinct(('accuracy_of', it['input']))
+        why = None
+        if isinstance(it['impl'], str):
+            why = 'accuracy ' + it['impl']
+        elif it['left'] != 0:
+            why = 'accuracy did not call teneva.norm exactly twice'
+        else:
+            mv = C.float_of_show(tuple(v[0]))
+            r = it['impl']
+            key = 'nan' if math.isnan(r) else 'inf' if math.isinf(r) else 'big' if r == 1e299 else 'minus1' if r == -1 \
+                else 'zero' if r == 0 else 'value'
+            dist['results'][key] += 1
+            if not same_float(mv, r):
+                why = f'accuracy = {r!r}, model accuracy_of = {mv!r}'
+        if why:
+            bad.append(dict(stream='accuracy_branches', why=why, input=it['input'], model=v, impl=it['impl']))
+    _corr_add(R, 'accuracy_branches', len(items), bad, 'bit-exact PrimFloat (prescribed norm results)', dist,
+              sample=dict(stream='accuracy_branches', input=items[0]['input'], model=vals[0], impl=items[0]['impl']))
+    return bad
+
+
+# ----------------------------------------------------------------------------
+# orthogonalize(use_stab=True) and truncate(use_stab=True)
+# ----------------------------------------------------------------------------
+
+def arr_coq(A):
+    A = np.asarray(A, dtype=float)
+    return Core(A.shape[0], A.shape[1], A.shape[2], arr=A).coq()
+
+
+def arrs_coq(Z):
+    return '[' + '; '.join(arr_coq(G) for G in Z) + ']'
+
+
+def recs_coq(recs):
+    return '[' + '; '.join(f'(({arr_coq(a)}, {arr_coq(b)}), ({arr_coq(a2)}, {arr_coq(b2)}))' for a, b, a2, b2 in recs) + ']'
+
+
+def fcore_coq(A):
+    A = np.asarray(A, dtype=float)
+    return f'(FC {A.shape[0]} {A.shape[1]} {A.shape[2]} [' + '; '.join(fl(x) for x in A.ravel()) + '])'
+
+
+def all_finite(Z):
+    return all(np.all(np.isfinite(G)) for G in Z)
+
+
+def gen_any(rng, d, mode, rmax):
+    return gen_float(rng, d, mode, rmax=rmax, nmax=2) if rng.random() < 0.6 else gen_small(rng, d, mode, rmax=rmax, nmax=2)
+
+
+def corr_orth(R, tn, rng, th):
+    """orthogonalize(Y, k, use_stab=True): every orthogonalize_left / orthogonalize_right call is recorded (inputs and
+    outputs) and replayed as the oracle of the model at the exact dyadic instance; the oracle checks that the model
+    hands it the very cores the implementation handed over.  Resulting cores and exponent must be identical."""
+    plan = []
+    for d in ([2, 3, 5, 12, 40] + ([150, 500] if th else [100])):
+        for mode in (['up', 'down', 'mixed'] if (d <= 5 or th) else [rng.choice(['up', 'down', 'mixed'])]):
+            ks = {0, d - 1, rng.randrange(d)} if (d <= 12 or th) else {rng.choice([0, d - 1, rng.randrange(d)])}
+            for k in sorted(ks):
+                plan.append((d, mode, k))
+    if not th:
+        plan.append((40, 'mixed', 17))
+    plan += [(3, 'tiny', 1), (3, 'big', 2), (4, 'zero', 0), (2, 'unit', 2), (3, 'mixed', 6), (5, 'zerocore', 4), (5, 'zerocore', 1)]
+    items, dist = [], dict(d=[], k_first=0, k_last=0, k_mid=0, rejected_k=0, zero_core=0, calls_left=0, calls_right=0,
+                           log2_ulp_skipped=0, worst_pair_residual=0.0)
+    cbad = []
+    for d, mode, k in plan:
+        zc = mode == 'zerocore'
+        Y = gen_any(rng, d, 'mixed' if zc else mode, rmax=3 if d <= 12 else 2)
+        if zc:
+            Y = with_zero_core(Y, rng.randrange(d))
+            dist['zero_core'] += 1
+        with Rec(tn) as rec:
+            try:
+                with np.errstate(all='ignore'):
+                    Zi, p = tn.orthogonalize(tt_np(Y), k, use_stab=True)
+                impl = [(0, 0), (int(p), 0)] if isinstance(p, (int, np.integer)) and all_finite(Zi) else \
+                    [('bad result', repr(p)[:40])]
+            except Exception as e:
+                Zi, impl = [], [(C.errclass(e), 0)]
+        _, ulp, viol = rec.log2_contract()
+        if ulp:
+            dist['log2_ulp_skipped'] += 1
+            continue
+        inp = ['orthogonalize', tt_desc(Y), k]
+        res = rec.orth_contract()
+        dist['worst_pair_residual'] = max(dist['worst_pair_residual'], res)
+        if viol or not res <= 1e-11:
+            cbad.append(dict(stream='orth_stab', why=f'oracle contract violated: log2 {viol[:2]}, pair residual {res:.3g}', input=inp))
+        dist['d'].append(d)
+        dist['calls_left'] += len(rec.orth_l)
+        dist['calls_right'] += len(rec.orth_r)
+        dist['rejected_k' if k > d - 1 else 'k_first' if k == 0 else 'k_last' if k == d - 1 else 'k_mid'] += 1
+        items.append(dict(coq=f'orth_run2 {tt_coq(Y)} {k}%nat {recs_coq(rec.orth_l)} {recs_coq(rec.orth_r)} {arrs_coq(Zi)}',
+                          impl=impl, input=inp))
+    dist['d'] = sorted(set(dist['d']))
+    bad = C.exact_corr(R, 'orth_stab', HEADER, items, chunk=3, norm=tup, distribution=dist)
+    if cbad:
+        R.corr[-1]['mismatches'] += len(cbad)
+        R.corr[-1]['first_mismatches'] = (R.corr[-1]['first_mismatches'] + cbad)[:3]
+    return bad + cbad
+
+
+def corr_truncate(R, tn, rng, th):
+    """truncate(Y, e, use_stab=True): (1) its orthogonalize(Y, d-1, True) call is replayed on the dyadic model as in the
+    orth_stab stream; (2) the rounding sweep is re-run by the implementation on the recorded (Z, p) without the final
+    rescaling (orth=False, the same absolute threshold), and the model's rescale_all at the PrimFloat instance with
+    c = 2**(p/d) must reproduce the returned cores bit for bit.  The root contract c^d = 2^p is validated."""
+    plan = []
+    for d in ([2, 3, 5, 9, 30] + ([120] if th else [])):
+        for mode in ['up', 'down', 'mixed']:
+            plan.append((d, mode, rng.choice([1e-2, 1e-5, 1e-8]), rng.random() < 0.7))
+    plan += [(3, 'tiny', 1e-6, True), (3, 'big', 1e-6, True), (4, 'zero', 1e-6, False), (6, 'unit', 0.3, True)]
+    ditems, fterms, meta = [], [], []
+    dist = dict(d=[], eigh=0, skeleton=0, p_range=[0, 0], rank_reduced=0, log2_ulp_skipped=0, root_worst=0.0)
+    bad = []
+    for d, mode, e, is_eigh in plan:
+        Y = gen_any(rng, d, mode, rmax=3 if d <= 9 else 2)
+        inp = ['truncate', tt_desc(Y), e, is_eigh]
+        with Rec(tn) as rec:
+            try:
+                with np.errstate(all='ignore'):
+                    W = tn.truncate(tt_np(Y), e, use_stab=True, is_eigh=is_eigh)
+                err = None
+            except Exception as ex:
+                err = 'raised ' + repr(ex)[:80]
+        _, ulp, viol = rec.log2_contract()
+        if ulp:
+            dist['log2_ulp_skipped'] += 1
+            continue
+        R.add_distinct(('truncate', inp))
+        if err or len(rec.orth_out) != 1 or not all_finite(W):
+            bad.append(dict(stream='truncate_stab', input=inp,
+                            why=err or ('non-finite cores' if len(rec.orth_out) == 1 else
+                                        f'truncate(use_stab=True) called orthogonalize(.., True) {len(rec.orth_out)} times')))
+            continue
+        Zs, p = rec.orth_out[0]
+        with np.errstate(all='ignore'):
+            e1 = e / np.sqrt(d - 1) * np.linalg.norm(Zs[-1])
+            W0 = tn.truncate([G.copy() for G in Zs], e1, orth=False, use_stab=False, is_eigh=is_eigh)
+        c = 2 ** (p / d)
+        root_err = abs(d * math.log2(c) - p)
+        dist['root_worst'] = max(dist['root_worst'], root_err)
+        dist['d'].append(d)
+        dist['eigh' if is_eigh else 'skeleton'] += 1
+        dist['p_range'] = [min(dist['p_range'][0], int(p)), max(dist['p_range'][1], int(p))]
+        if any(G.shape[2] < H.r2 for G, H in zip(W, Y)):
+            dist['rank_reduced'] += 1
+        if viol or root_err > 1e-9 or not rec.orth_contract() <= 1e-11:
+            bad.append(dict(stream='truncate_stab', input=inp, why=f'oracle contract violated: log2 {viol[:2]}, root {root_err:.3g}, '
+                                                                    f'pair residual {rec.orth_contract():.3g}'))
+        ditems.append(f'orth_run2 {tt_coq(Y)} {d - 1}%nat {recs_coq(rec.orth_l)} [] {arrs_coq(Zs)}')
+        fterms.append(f'rescl {fl(c)} [' + '; '.join(fcore_coq(G) for G in W0) + '] [' + '; '.join(fcore_coq(G) for G in W) + ']')
+        meta.append(dict(input=inp, p=int(p), c=float(c).hex()))
+    dv = C.run_cases('C16_trunc_orth', HEADER, ditems, chunk=3)
+    fv = C.run_cases('C16_trunc_resc', HEADER_F, fterms, chunk=6)
+    for m, a, b in zip(meta, dv, fv):
+        why = None
+        if tup(a) != [(0, 0), (m['p'], 0)]:
+            why = f'the orthogonalize(Y, d-1, True) step differs from the dyadic model: model {a}, exponent returned {m["p"]}'
+        elif tup(b) != [(0, 0)]:
+            why = f'returned cores are not rescale_all(2**(p/d)) of the rounded stabilised tensor: (cores differing, length difference) = {b}'
+        if why:
+            bad.append(dict(stream='truncate_stab', why=why, input=m['input'], model=[a, b], impl=[m['p'], m['c']]))
+    dist['d'] = sorted(set(dist['d']))
+    _corr_add(R, 'truncate_stab', len(meta), bad, 'orthogonalisation step: exact dyadic; final rescaling: bit-exact PrimFloat', dist,
+              sample=dict(stream='truncate_stab', d=len(meta[0]['input'][1]), p=meta[0]['p'], c=meta[0]['c'], model=[dv[0], fv[0]]) if meta else None)
+    return bad
+
+
+# ----------------------------------------------------------------------------
+# property-level oracles ON THE IMPLEMENTATION (independent of the Coq model): big-integer references
+# ----------------------------------------------------------------------------
+
+TOL = 1e-9
+# known finding (known_findings.json): the stabilised Gram recursion keeps ONE exponent for the whole partial-product vector,
+# so a rank component more than 2^1074 below the largest one on some bond underflows inside the mantissa vector and is lost
+# even if it dominates at the end.  Failures of exactly this family (see bond_spread) carry this key.
+KEY_UNDERFLOW = 'C16/stab-mantissa-underflow-across-blocks'
+SQRT2_UP = 1.4142135623730952
+
+
+def call(f, *a, **k):
+    try:
+        with np.errstate(all='ignore'):
+            return True, f(*a, **k)
+    except Exception as e:      # noqa
+        return False, e
+
+
+def top64(S):
+    b = S.bit_length()
+    s = max(b - 64, 0)
+    return float(S >> s), s
+
+
+def dy_ratio(a, b):
+    """a / b = m * 2^e with m in [0.5, 1) for positive dyadics a = (S, E), b"""
+    fa, sa = top64(a[0])
+    fb, sb = top64(b[0])
+    m, e = math.frexp(fa / fb)
+    return m, e + sa + a[1] - sb - b[1]
+
+
+def dy_sum(terms):
+    e0 = min(e for _, e in terms)
+    return sum(s << (e - e0) for s, e in terms), e0
+
+
+def me_sqrt(m, e):
+    if e % 2:
+        m, e = m * 2, e - 1
+    return math.sqrt(m), e // 2
+
+
+def me_float(m, e):
+    try:
+        return math.ldexp(m, e)
+    except OverflowError:
+        return float('inf')
+
+
+def tts(inp_part):
+    return None if inp_part is None else [core_of_desc(x) for x in inp_part]
+
+
+def abs_ints(I):
+    return [(np.array([abs(int(x)) for x in M.ravel()], dtype=object).reshape(M.shape), e) for M, e in I]
+
+
+def max_scale(Y):
+    m = 0
+    for G in Y:
+        nz = np.abs(G.arr[G.arr != 0])
+        if nz.size:
+            m = max(m, abs(floor_log2(nz.max())), abs(floor_log2(nz.min())))
+    return m
+
+
+def representable(track, *Ys):
+    """the plain float computation stays far inside the double range: every partial product and every core"""
+    return all(t is not None and abs(t) <= 900 for t in track) and all(max_scale(Y) <= 300 for Y in Ys)
+
+
+def short(S, E):
+    if S == 0:
+        return '0'
+    f, s = top64(abs(S))
+    m, e = math.frexp(f)
+    return f'{"-" if S < 0 else ""}{m * 2!r} * 2^{e - 1 + s + E}'
+
+
+def F(what, got=None, expected=None, **kw):
+    d = dict(what=what, got=got, expected=expected)
+    d.update(kw)
+    return d
+
+
+def chk_core_stab(tn, inp):
+    G, p0, args = core_of_desc(inp[0]), int(inp[1]), [float.fromhex(x) if isinstance(x, str) else float(x) for x in inp[2]]
+    A = G.arr
+    thr = args[0] if args else 0.0
+    ok, r = call(tn.core_stab, A.copy(), p0, *args)
+    if not ok:
+        return F('core_stab raised ' + repr(r)[:80])
+    Q, p = r
+    vm = float(np.max(np.abs(A)))
+    if not isinstance(p, (int, np.integer)):
+        return F('core_stab: the exponent is not an integer', repr(p))
+    if vm <= thr:
+        if p != p0 or Q.shape != A.shape or not np.array_equal(Q, A):
+            return F('core_stab changed a core whose maximum modulus is not above the threshold', [int(p)], [p0])
+        return None
+    lg, dp = floor_log2(vm), int(p) - p0
+    ulp = dp == lg + 1 and math.frexp(vm)[0] >= NEAR_POW2
+    if dp != lg and not ulp:
+        return F('core_stab: exponent is not p0 + floor(log2(max|G|))', dp, lg)
+    if Q.shape != A.shape or not np.all(np.isfinite(Q)):
+        return F('core_stab: non-finite or reshaped mantissa core')
+    qm = float(np.max(np.abs(Q)))
+    if not (1 <= qm < 2 or (ulp and NEAR_POW2 <= qm < 1)):
+        return F('core_stab: maximum modulus of the mantissa core is outside [1, 2)', qm)
+    for q, a in zip(Q.ravel(), A.ravel()):
+        (m1, e1), (m2, e2) = canon(q), canon(a)
+        if (m1, e1 + dp if m1 else 0) != (m2, e2):
+            if a != 0 and abs(floor_log2(a) - dp) > 1000:
+                continue        # the quotient is subnormal: rounding is expected
+            return F('core_stab: Q * 2^p differs from G', [float(q).hex(), dp], float(a).hex())
+    return None
+
+
+def _stab_call(tn, f, *a):
+    with Rec(tn) as rec:
+        ok, r = call(f, *a, use_stab=True)
+    _, ulp, viol = rec.log2_contract()
+    return ok, r, ulp, viol
+
+
+def chk_mul_scalar(tn, inp):
+    Y1 = tts(inp[0])
+    Y2 = Y1 if inp[1] is None else tts(inp[1])
+    exact = bool(inp[2])
+    a, b = tt_np(Y1), tt_np(Y2)
+    ok, r, ulp, viol = _stab_call(tn, tn.mul_scalar, a, b)
+    if not ok:
+        return F('mul_scalar(use_stab=True) raised ' + repr(r)[:80])
+    if viol:
+        return F('floor(np.log2(v)) does not satisfy 2^p <= v < 2^(p+1) inside mul_scalar(use_stab=True)', viol[:2])
+    if ulp:
+        return None
+    if not (isinstance(r, tuple) and len(r) == 2):
+        return F('mul_scalar(use_stab=True) did not return (mantissa, exponent)', repr(r)[:80])
+    v, p = r
+    if not isinstance(p, (int, np.integer)):
+        return F('mul_scalar(use_stab=True): the exponent is not an integer', repr(p))
+    v, p = float(v), int(p)
+    if not math.isfinite(v) or not (v == 0 or 1 <= abs(v) < 2):
+        return F('mul_scalar(use_stab=True): mantissa outside {0} u [1, 2)', [v, p])
+    I1, I2 = ints_of(Y1), ints_of(Y2)
+    track = []
+    S, E = exact_dot(I1, I2, track)
+    if S == 0:
+        if v != 0 and exact:
+            return F('mul_scalar(use_stab=True): non-zero mantissa for an exactly vanishing product', [v, p], 0)
+        return None
+    tol = 0.0
+    if not exact:
+        Sa, Ea = exact_dot(abs_ints(I1), abs_ints(I2))
+        cm, ce = dy_ratio((Sa, Ea), (abs(S), E))
+        tol = TOL * max(1.0, me_float(cm, ce))
+        if not tol <= 1e-3:
+            return None         # ill-conditioned sum (cancellation): rounding decides, nothing to check
+    m, e = canon(v)
+    rd = rel_diff(m, e + p, S, E)
+    if not rd <= tol:
+        return F('mul_scalar(use_stab=True): mantissa * 2^exponent differs from the exact scalar product',
+                 f'{v!r} * 2^{p}', short(S, E), relative=rd, tolerance=tol)
+    if representable(track, Y1, Y2):
+        ok, plain = call(tn.mul_scalar, a, b)
+        sv = math.ldexp(v, p)
+        if not ok or not (float(plain) == sv if exact else abs(float(plain) - sv) <= 1e-12 * abs(sv)):
+            return F('plain mul_scalar differs from the stabilised result although the plain computation is representable',
+                     repr(plain)[:60], sv)
+    return None
+
+
+def chk_norm(tn, inp):
+    Y = tts(inp[0])
+    exact = bool(inp[1])
+    a = tt_np(Y)
+    ok, r, ulp, viol = _stab_call(tn, tn.norm, a)
+    if not ok:
+        return F('norm(use_stab=True) raised ' + repr(r)[:80])
+    if viol:
+        return F('floor(np.log2(v)) does not satisfy 2^p <= v < 2^(p+1) inside norm(use_stab=True)', viol[:2])
+    if ulp:
+        return None
+    if not (isinstance(r, tuple) and len(r) == 2):
+        return F('norm(use_stab=True) did not return (mantissa, exponent)', repr(r)[:80])
+    z, ph = float(r[0]), r[1]
+    if not float(2 * ph).is_integer():
+        return F('norm(use_stab=True): the exponent is not an integer or a half-integer', repr(ph))
+    H = int(2 * ph)
+    if not math.isfinite(z) or not (z == 0 or 1 <= z < SQRT2_UP):
+        return F('norm(use_stab=True): mantissa outside {0} u [1, sqrt 2)', [z, H / 2])
+    I = ints_of(Y)
+    track = []
+    S, E = exact_dot(I, I, track)
+    if S == 0:
+        # beyond 53 bits the float computation of an exactly vanishing sum leaves rounding noise: only the exact family
+        return F('norm(use_stab=True): non-zero mantissa for the zero tensor', [z, H / 2], 0) if (z != 0 and exact) else None
+    if z == 0:
+        return F('norm(use_stab=True): zero mantissa for a non-zero tensor', [z, H / 2], short(S, E) + ' (squared)')
+    m, e = canon(z)
+    rd = rel_diff(m * m, 2 * e + H, S, E)
+    tol = 1e-12
+    if not exact:
+        Sa, Ea = exact_dot(abs_ints(I), abs_ints(I))
+        cm, ce = dy_ratio((Sa, Ea), (S, E))
+        tol = TOL * max(1.0, me_float(cm, ce))
+        if not tol <= 1e-3:
+            return None         # ill-conditioned (cancellation): rounding decides, nothing to check
+    if not rd <= tol:
+        return F('norm(use_stab=True): (mantissa * 2^exponent)^2 differs from the exact <Y, Y>', f'{z!r} * 2^({H}/2)',
+                 short(S, E) + ' (squared)', relative=rd)
+    if exact and H != E + S.bit_length() - 1:
+        return F('norm(use_stab=True): exponent is not floor(log2 <Y,Y>) / 2', H, E + S.bit_length() - 1)
+    if representable(track, Y):
+        ok, plain = call(tn.norm, a)
+        sv = math.ldexp(z, H // 2) * (math.sqrt(2.0) if H % 2 else 1.0)
+        if not ok or not abs(float(plain) - sv) <= 1e-12 * sv:
+            return F('plain norm differs from the stabilised result although the plain computation is representable',
+                     repr(plain)[:60], sv)
+    return None
+
+
+def chk_accuracy(tn, inp):
+    Y1 = tts(inp[0])
+    same = inp[1] is None
+    Y2 = Y1 if same else tts(inp[1])
+    ok, r = call(tn.accuracy, tt_np(Y1), tt_np(Y2))
+    if not ok:
+        return F('accuracy raised ' + repr(r)[:80])
+    r = float(r)
+    I1, I2 = ints_of(Y1), ints_of(Y2)
+    S11, S22 = exact_dot(I1, I1), exact_dot(I2, I2)
+    S12 = S11 if same else exact_dot(I1, I2)
+    N1 = dy_sum([S11, (-2 * S12[0], S12[1]), S22])
+    assert N1[0] >= 0 and S22[0] >= 0
+    if S22[0] == 0:
+        # ||Y2|| = 0: no relative distance exists; the documented sentinels are -1, 0. and 1e299
+        return None if r in (-1.0, 0.0, 1e299) else F('accuracy with Y2 = 0 is not one of the sentinels -1, 0, 1e299', r)
+    # the implementation forms ||Y1 - Y2||^2 = <Y1,Y1> - 2<Y1,Y2> + <Y2,Y2> in floating point: its absolute error is
+    # bounded by a modest multiple of eps * (<|Y1|,|Y1|> + 2<|Y1|,|Y2|> + <|Y2|,|Y2|>); delta is that bound relative to ||Y2||^2
+    # (the scalar products themselves are sums with cancellation between rank components: entries in absolute value)
+    A1, A2 = abs_ints(I1), abs_ints(I2)
+    A11, A22 = exact_dot(A1, A1), exact_dot(A2, A2)
+    A12 = A11 if same else exact_dot(A1, A2)
+    am, ae = dy_ratio(dy_sum([A11, (2 * A12[0], A12[1]), A22]), S22)
+    delta = 1e-12 * me_float(am, ae)
+    if N1[0] == 0:
+        lg, rho2, exp_txt = None, 0.0, '0'
+    else:
+        m, e = dy_ratio(N1, S22)
+        rm, re = me_sqrt(m, e)
+        lg = re + math.log2(rm)
+        exp_txt = f'{rm!r} * 2^{re}'
+        if lg > 501:
+            return None if r == 1e299 else F('accuracy: relative distance above 2^501 must saturate to 1e299', r, exp_txt)
+        if lg < -501:
+            return None if r == 0.0 else F('accuracy: relative distance below 2^-501 must give 0', r, exp_txt)
+        if (r == 1e299 and lg > 499.4) or (r == 0.0 and lg < -499.4):
+            return None
+        rho2 = me_float(m, e)
+    if N1[0] == 0:
+        good = 0 <= r and (r * r if r < 1e150 else float('inf')) <= delta
+    else:
+        q = r / me_float(rm, re)
+        slack = 2 * TOL + (delta / rho2 if rho2 > 0 else float('inf'))
+        good = r >= 0 and 1 - slack <= q * q <= 1 + slack
+    if not good:
+        f = F('accuracy differs from the exact relative distance ||Y1 - Y2|| / ||Y2||', r, exp_txt,
+              allowed_abs_error_of_square=delta)
+        if N1[0] == 0 and r == 1e299:
+            f['what'] = 'accuracy of two equal tensors is 1e299 instead of 0'
+        return f
+    return None
+
+
+def chk_shift(tn, inp):
+    Y1 = tts(inp[0])
+    both = inp[1] is None
+    Y2 = Y1 if both else tts(inp[1])
+    j, s = int(inp[2]), int(inp[3])
+    Y1s = scaled(Y1, [s if i == j else 0 for i in range(len(Y1))])
+    Y2s = Y1s if both else Y2
+    ok, r, ulp, viol = _stab_call(tn, tn.mul_scalar, tt_np(Y1), tt_np(Y2))
+    ok2, r2, ulp2, viol2 = _stab_call(tn, tn.mul_scalar, tt_np(Y1s), tt_np(Y2s))
+    if not (ok and ok2):
+        return F('mul_scalar(use_stab=True) raised ' + repr(r if not ok else r2)[:80])
+    if ulp or ulp2 or viol or viol2:
+        return None
+    (v, p), (v2, p2) = r, r2
+    if float(v) == 0:
+        return None             # the exponent of a vanishing product is frozen where it vanished
+    want = p + (2 * s if both else s)
+    if not (float(v2) == float(v) and p2 == want):
+        return F(f'scaling core {j} by 2^{s} must shift the exponent of mul_scalar(use_stab=True) by '
+                 f'{2 * s if both else s} and leave the mantissa unchanged', [float(v2), int(p2)], [float(v), int(want)])
+    if both:
+        okn, n1 = call(tn.norm, tt_np(Y1), use_stab=True)
+        okm, n2 = call(tn.norm, tt_np(Y1s), use_stab=True)
+        if not (okn and okm):
+            return F('norm(use_stab=True) raised')
+        if not (float(n2[0]) == float(n1[0]) and n2[1] == n1[1] + s):
+            return F(f'scaling core {j} by 2^{s} must shift the exponent of norm(use_stab=True) by {s} and leave the '
+                     f'mantissa unchanged', [float(n2[0]), float(n2[1])], [float(n1[0]), float(n1[1]) + s])
+    return None
+
+
+def exact_rel_dist(Z, p, I):
+    """||2^p Z - Y|| / ||Y|| for float cores Z and Y given by its integer form I: exact big-integer arithmetic up to
+    the final square root.  Returns (value | None when Y = 0, ||Z||^2 == 0)"""
+    IZ = ints_of(Z)
+    NZ, ZY, NY = exact_dot(IZ, IZ), exact_dot(IZ, I), exact_dot(I, I)
+    if NY[0] == 0:
+        return None, NZ[0] == 0
+    D2 = dy_sum([(NZ[0], NZ[1] + 2 * p), (-2 * ZY[0], ZY[1] + p), NY])
+    assert D2[0] >= 0
+    if D2[0] == 0:
+        return 0.0, NZ[0] == 0
+    m, e = dy_ratio(D2, NY)
+    rm, re = me_sqrt(m, e)
+    return me_float(rm, re), NZ[0] == 0
+
+
+def has_zero_core(Y):
+    return any(not np.any(G.arr) for G in Y)
+
+
+def shapes_ok(Z, Y):
+    return len(Z) == len(Y) and all(isinstance(G, np.ndarray) and G.ndim == 3 and G.shape[1] == H.n for G, H in zip(Z, Y)) and \
+        Z[0].shape[0] == 1 and Z[-1].shape[2] == 1 and all(Z[i].shape[2] == Z[i + 1].shape[0] for i in range(len(Z) - 1))
+
+
+def chk_orth(tn, inp):
+    Y, k = tts(inp[0]), int(inp[1])
+    d = len(Y)
+    with Rec(tn) as rec:
+        ok, r = call(tn.orthogonalize, tt_np(Y), k, use_stab=True)
+    if k < 0 or k > d - 1:
+        return None if (not ok and isinstance(r, ValueError)) else F('orthogonalize accepts an invalid mode number', repr(r)[:60], 'ValueError')
+    if not ok:
+        return F('orthogonalize(use_stab=True) raised ' + repr(r)[:80])
+    _, ulp, viol = rec.log2_contract()
+    if viol:
+        return F('floor(np.log2(v)) does not satisfy 2^p <= v < 2^(p+1) inside orthogonalize(use_stab=True)', viol[:2])
+    if ulp:
+        return None
+    if not (isinstance(r, tuple) and len(r) == 2 and isinstance(r[1], (int, np.integer))):
+        return F('orthogonalize(use_stab=True) did not return (tensor, integer exponent)', repr(r)[:80])
+    Z, p = r[0], int(r[1])
+    if not shapes_ok(Z, Y) or not all_finite(Z):
+        return F('orthogonalize(use_stab=True): malformed or non-finite cores')
+    rel, zzero = exact_rel_dist(Z, p, ints_of(Y))
+    if rel is None:
+        # a tensor that vanishes only by cancellation between non-zero cores leaves rounding noise: not checked
+        return F('orthogonalize(use_stab=True) of a tensor with a zero core is not zero') if (has_zero_core(Y) and not zzero) else None
+    if not rel <= TOL:
+        return F('orthogonalize(use_stab=True): 2^p * Z differs from Y', f'relative distance {rel!r}, p = {p}', '<= 1e-9')
+    if d >= 2:
+        mk = float(np.max(np.abs(Z[k])))
+        if not 1 <= mk < 2:
+            return F(f'orthogonalize(use_stab=True): the maximum modulus of core k = {k} is outside [1, 2)', mk)
+        for i, G in enumerate(Z):
+            if i != k and float(np.max(np.abs(G))) > 1 + 1e-9:
+                return F(f'orthogonalize(use_stab=True): orthogonal core {i} has an entry above 1', float(np.max(np.abs(G))))
+    return None
+
+
+def chk_truncate(tn, inp):
+    Y, e, rcap, is_eigh = tts(inp[0]), float(inp[1]), inp[2], bool(inp[3])
+    ok, W = call(tn.truncate, tt_np(Y), e, 1e12 if rcap is None else rcap, use_stab=True, is_eigh=is_eigh)
+    if not ok:
+        return F('truncate(use_stab=True) raised ' + repr(W)[:80])
+    if not (isinstance(W, list) and shapes_ok(W, Y)) or not all_finite(W):
+        return F('truncate(use_stab=True): malformed or non-finite cores')
+    if rcap is not None:
+        if max(G.shape[2] for G in W) > rcap:
+            return F('truncate(use_stab=True): rank cap exceeded', [G.shape[2] for G in W], rcap)
+        return None
+    if len(inp) > 4 and inp[4]:
+        return None             # long chain: finiteness and shapes only
+    rel, wzero = exact_rel_dist(W, 0, ints_of(Y))
+    if rel is None:
+        return F('truncate(use_stab=True) of a tensor with a zero core is not zero') if (has_zero_core(Y) and not wzero) else None
+    if not rel <= e * (1 + 1e-6) + 2e-7:
+        return F('truncate(use_stab=True): the result is farther from Y than the requested accuracy', rel, e)
+    return None
+
+
+def ints_sub(I1, I2):
+    """integer form of sub(Y1, Y2) = [Y1, -Y2] (block cores), per core with a common exponent"""
+    out, d = [], len(I1)
+    for j, ((M1, e1), (M2, e2)) in enumerate(zip(I1, I2)):
+        e = min(e1, e2)
+        A = np.array([int(x) << (e1 - e) for x in M1.ravel()], dtype=object).reshape(M1.shape)
+        B = np.array([int(x) << (e2 - e) for x in M2.ravel()], dtype=object).reshape(M2.shape)
+        if j == 0:
+            B = -B
+        r1a, n, r2a = A.shape
+        r1b, _, r2b = B.shape
+        if d == 1:
+            M = A + B
+        elif j == 0:
+            M = np.concatenate([A, B], axis=2)
+        elif j == d - 1:
+            M = np.concatenate([A, B], axis=0)
+        else:
+            M = np.zeros((r1a + r1b, n, r2a + r2b), dtype=object)
+            M[:r1a, :, :r2a] = A
+            M[r1a:, :, r2a:] = B
+        out.append((M, e))
+    return out
+
+
+def bond_spread(I1, I2):
+    """largest log2(max |entry| / min non-zero |entry|) over the exact partial products of <Y1, Y2>"""
+    V, worst = np.array([[1]], dtype=object), 0
+    for (M1, _), (M2, _) in zip(I1, I2):
+        W = None
+        for i in range(M1.shape[1]):
+            t = M1[:, i, :].T.dot(V).dot(M2[:, i, :])
+            W = t if W is None else W + t
+        V = W
+        nz = [abs(int(x)).bit_length() for x in V.ravel() if x != 0]
+        if not nz:
+            break
+        worst = max(worst, max(nz) - min(nz))
+        g = 0
+        for x in V.ravel():
+            g |= abs(int(x))
+        t = (g & -g).bit_length() - 1
+        if t:
+            V = np.array([int(x) >> t for x in V.ravel()], dtype=object).reshape(V.shape)
+    return worst
+
+
+def flushed_dot(I1, I2):
+    """exact scalar product, except that after every core the entries more than 2^1075 below the largest one are set
+    to 0: what the float mantissa vector (largest entry normalised to [1, 2)) does to them.  Returns (S, E)."""
+    V, E = np.array([[1]], dtype=object), 0
+    for (M1, e1), (M2, e2) in zip(I1, I2):
+        W = None
+        for i in range(M1.shape[1]):
+            t = M1[:, i, :].T.dot(V).dot(M2[:, i, :])
+            W = t if W is None else W + t
+        V = W
+        E += e1 + e2
+        mb = max(abs(int(x)).bit_length() for x in V.ravel())
+        V = np.array([0 if abs(int(x)).bit_length() < mb - 1075 else int(x) for x in V.ravel()], dtype=object).reshape(V.shape)
+        g = 0
+        for x in V.ravel():
+            g |= abs(int(x))
+        if g:
+            t = (g & -g).bit_length() - 1
+            if t:
+                V = np.array([int(x) >> t for x in V.ravel()], dtype=object).reshape(V.shape)
+                E += t
+    return int(V[0, 0]), E
+
+
+def underflow_family(tn, kind, inp):
+    """the known finding, and nothing else: some rank component of a partial product lies more than 2^1060 below the
+    largest one AND the implementation's result is the one obtained by flushing such components to 0 (rel. 1e-6)"""
+    try:
+        if kind not in ('accuracy', 'mul_scalar', 'norm'):
+            return False
+        I1 = ints_of(tts(inp[0]))
+        I2 = I1 if (kind == 'norm' or inp[1] is None) else ints_of(tts(inp[1]))
+        a = tt_np(tts(inp[0]))
+        b = a if (kind == 'norm' or inp[1] is None) else tt_np(tts(inp[1]))
+        if kind == 'accuracy':
+            S = ints_sub(I1, I2)
+            if bond_spread(S, S) <= 1060:
+                return False
+            ok, r = call(tn.accuracy, a, b)
+            N1, N2 = flushed_dot(S, S), exact_dot(I2, I2)
+            if not ok or N2[0] <= 0:
+                return False
+            if N1[0] <= 0:
+                return float(r) == 0.0
+            m, e = dy_ratio(N1, N2)
+            rm, re = me_sqrt(m, e)
+            want = me_float(rm, re)
+            return math.isfinite(want) and abs(float(r) - want) <= 1e-6 * want
+        if bond_spread(I1, I2) <= 1060:
+            return False
+        ok, r = call(tn.mul_scalar, a, b, use_stab=True)
+        if not ok:
+            return False
+        S, E = flushed_dot(I1, I2)
+        m, e = canon(float(r[0]))
+        if S == 0 or m == 0:
+            return S == 0 and m == 0
+        return rel_diff(m, e + int(r[1]), S, E) <= 1e-6
+    except Exception:       # noqa
+        return False
+
+
+CHECKS = dict(core_stab=chk_core_stab, mul_scalar=chk_mul_scalar, norm=chk_norm, accuracy=chk_accuracy, shift=chk_shift,
+              orth=chk_orth, truncate=chk_truncate)
+TENSOR_SLOTS = dict(mul_scalar=[0, 1], norm=[0], accuracy=[0, 1], truncate=[0])
+
+
+def _run(tn, kind, inp, key=None):
+    f = CHECKS[kind](tn, inp)
+    if f:
+        f.update(kind=kind, input=inp)
+        if key:
+            f['finding_key'] = key
+    return f
+
+
+def shrink(tn, kind, inp, budget=60):
+    """drop blocks of consecutive cores (where the ranks allow it) while the failure persists"""
+    slots = TENSOR_SLOTS.get(kind)
+    if not slots:
+        return inp
+    cur = inp
+    if len(cur[slots[0]]) > 400:
+        budget = min(budget, 10)
+    L = len(cur[slots[0]]) // 2
+    while L >= 1 and budget > 0:
+        i, changed = 0, False
+        while i + L <= len(cur[slots[0]]) and len(cur[slots[0]]) - L >= 2 and budget > 0:
+            okc = all(cur[s] is None or cur[s][i][0] == cur[s][i + L - 1][2] for s in slots)
+            if okc:
+                cand = list(cur)
+                for s in slots:
+                    if cand[s] is not None:
+                        cand[s] = cand[s][:i] + cand[s][i + L:]
+                budget -= 1
+                try:
+                    f = CHECKS[kind](tn, cand)
+                except Exception:   # noqa
+                    f = None
+                if f:
+                    cur, changed = cand, True
+                    continue
+            i += 1
+        if not changed:
+            L //= 2
+    return cur
+
+
+def hint_jobs(h):
+    x = h.get('input') or []
+    if not x:
+        return []
+    if x[0] == 'core_stab':
+        return [('core_stab', [x[1], x[2], x[3]])]
+    if x[0] == 'mul_scalar':
+        return [('mul_scalar', [x[2], x[3], h.get('stream') == 'mulscal_exact'])]
+    if x[0] == 'norm':
+        return [('norm', [x[2], True]), ('mul_scalar', [x[2], None, True])]
+    if x[0] == 'accuracy':
+        return [('accuracy', [x[2], x[3]])]
+    if x[0] == 'orthogonalize':
+        return [('orth', [x[1], x[2]])]
+    if x[0] == 'truncate':
+        return [('truncate', [x[1], x[2], None, x[3]])]
     return []
 
 
+def search_jobs(rng, th, deep):
+    J = []
+    mult = 4 if deep else 1
+    dbig = 4000 if th else 300
+    # --- core_stab: degenerate families first
+    for fam in ['zero', 'one', 'pow2', 'below2', 'subnormal', 'huge', 'tiny'] + ['generic'] * (4 * mult):
+        r1, n, r2 = rng.randint(1, 3), rng.randint(1, 3), rng.randint(1, 3)
+        k = r1 * n * r2
+        A = dict(zero=lambda: [0.0] * k, one=lambda: [1.0] + [0.5] * (k - 1),
+                 pow2=lambda: [rng.choice([-1, 1]) * 2.0 ** rng.randint(-300, 300) for _ in range(k)],
+                 below2=lambda: [math.nextafter(2.0, 0.0)] + [1.0] * (k - 1),
+                 subnormal=lambda: [rng.randint(1, 2 ** 20) * 2.0 ** -1074 for _ in range(k)],
+                 huge=lambda: [rng.uniform(-1, 1) * 2.0 ** rng.randint(960, 1023) for _ in range(k)],
+                 tiny=lambda: [rng.uniform(-1, 1) * 2.0 ** rng.randint(-420, -330) for _ in range(k)],
+                 generic=lambda: [rng.uniform(-1, 1) * 2.0 ** rng.randint(-80, 80) for _ in range(k)])[fam]()
+        G = Core(r1, n, r2, arr=np.array(A).reshape(r1, n, r2))
+        args = [] if rng.random() < 0.7 else [float(rng.choice([0.0, 1e-100, 1.0])).hex()]
+        J.append(('core_stab', [G.desc(), rng.choice([0, 0, rng.randint(-40000, 40000)]), args]))
+    # --- mul_scalar / norm: exact rank-1 families (zero product, d = 2, mode size 1, tiny / huge scales, long chains)
+    for mode, d in [('up', 2), ('down', 2), ('tiny', 3), ('big', 3), ('zero', 4), ('unit', 9), ('mixed', 17), ('up', dbig),
+                    ('down', dbig), ('mixed', dbig)] + [(rng.choice(['up', 'down', 'mixed']), rng.randint(2, dbig)) for _ in range(3 * mult)]:
+        za = rng.randrange(d) if rng.random() < 0.15 else None
+        Y1, Y2 = gen_r1_pair(rng, d, mode, zero_at=za)
+        J.append(('mul_scalar', [tt_desc(Y1), tt_desc(Y2), True]))
+        Y = gen_r1_self(rng, d, mode, zero_at=za)
+        J.append(('norm', [tt_desc(Y), True]))
+        J.append(('mul_scalar', [tt_desc(Y), None, True]))
+    # --- higher ranks, generic 53-bit mantissas (positive entries: no cancellation), and few-bit entries with signs
+    for mode, d in [('up', 2), ('down', 3), ('mixed', 6), ('up', 40), ('down', 120), ('mixed', dbig // 2)] + \
+            [(rng.choice(['up', 'down', 'mixed', 'tiny']), rng.randint(2, 60)) for _ in range(2 * mult)]:
+        Y1 = gen_float(rng, d, mode, rmax=3, nmax=2, lo=0.1)
+        Y2 = gen_float(rng, d, mode, rmax=3, nmax=2, like=Y1, lo=0.1)
+        J.append(('mul_scalar', [tt_desc(Y1), tt_desc(Y2), False]))
+        J.append(('norm', [tt_desc(Y1), False]))
+        Y3 = gen_small(rng, min(d, 200), mode, rmax=3)
+        J.append(('norm', [tt_desc(Y3), False]))
+    # --- rank 2 with components on different scale schedules (A + B against -(A + C)): every partial product of every
+    #     pair of components is non-positive; the spread between components stays below 2^900 (clear of the known finding)
+    for d, step in [(30, -12), (60, 7), (72, -6)] + ([(70, -6), (36, 12)] if deep or th else []):
+        A = gen_float(rng, d, 'unit', rmax=1, nmax=2, lo=0.5)
+        B = gen_float(rng, d, 'unit', rmax=1, nmax=2, like=A, lo=0.5)
+        Cc = gen_float(rng, d, 'unit', rmax=1, nmax=2, like=A, lo=0.5)
+        Bs, Cs = scaled(B, [step] * d), scaled(Cc, [step] * d)
+
+        def plus(P, Q, sign):
+            out = []
+            for j, (G, H) in enumerate(zip(P, Q)):
+                g, h = G.arr, H.arr
+                if d == 1:
+                    M = g + h
+                elif j == 0:
+                    M = np.concatenate([g, h], axis=2)
+                elif j == d - 1:
+                    M = np.concatenate([g, h], axis=0)
+                else:
+                    M = np.zeros((2, g.shape[1], 2))
+                    M[:1, :, :1], M[1:, :, 1:] = g, h
+                out.append(Core(M.shape[0], M.shape[1], M.shape[2], arr=(sign * M if j == 0 else M)))
+            return out
+        J.append(('mul_scalar', [tt_desc(plus(A, Bs, 1)), tt_desc(plus(A, Cs, -1)), False]))
+        J.append(('mul_scalar', [tt_desc(plus(A, Bs, -1)), tt_desc(plus(A, Bs, 1)), False]))
+    # --- accuracy: disjoint supports (ratio steered from 1 to beyond 2^501), unrelated, equal, zero Y2
+    for lgt in [0, 3, 60, 250, 450, 498, 503, 640] + [rng.randint(0, 700) for _ in range(2 * mult)]:
+        d = rng.choice([2, 3, 5, 9, 30])
+        Y1 = gen_float(rng, d, 'unit', rmax=2, nmax=2, n0=2)
+        Y2 = gen_float(rng, d, 'unit', rmax=2, nmax=2, like=Y1)
+        Y1[0].arr[:, 1, :] = 0.0
+        Y2[0].arr[:, 0, :] = 0.0
+        J.append(('accuracy', [tt_desc(spread_shift(Y1, lgt)), tt_desc(Y2)]))
+    for d, mode in [(2, 'mixed'), (3, 'up'), (7, 'down'), (40, 'mixed'), (dbig, 'up'), (dbig, 'down')][:6 if deep or th else 5]:
+        # same scale schedule for both tensors: the rank components of Y1 - Y2 stay within 2^900 of each other at every bond
+        Y1 = gen_float(rng, d, mode, rmax=2, nmax=2)
+        Y2 = gen_float(rng, d, mode, rmax=2, nmax=2, like=Y1, same_scales=True)
+        J.append(('accuracy', [tt_desc(Y1), tt_desc(Y2)]))
+        J.append(('accuracy', [tt_desc(Y2), None]))
+    Y = gen_float(rng, 4, 'unit', rmax=2)
+    J.append(('accuracy', [tt_desc(Y), tt_desc(with_zero_core(Y, 2))]))
+    J.append(('accuracy', [tt_desc(spread_shift(Y, 1200)), tt_desc(with_zero_core(Y, 0))]))
+    J.append(('accuracy', [tt_desc(spread_shift(Y, -1200)), tt_desc(with_zero_core(Y, 0))]))
+    # equal tensors whose last core is tiny (the exponent of the vanishing difference misses that core)
+    for k in (-505, -700 // 2):
+        Y = gen_r1_self(rng, rng.choice([2, 3, 5]), 'unit')     # few-bit entries: the difference vanishes exactly
+        J.append(('accuracy', [tt_desc(scaled(Y, [0] * (len(Y) - 1) + [k])), None]))
+    J.append(('accuracy', [[[1, 2, 1, 0, [1, 1]], [1, 2, 1, -505, [1, 1]]], None]))     # the input of the repair 0f9009d
+    # regression input of the known finding: a rank component that is 2^-1200 of the other one at an inner bond and
+    # dominates at the end (d = 21, entries 2^+-60)
+    A = [Core(1, 1, 1, k=-60, cs=[1]) for _ in range(10)] + [Core(1, 1, 1, k=60, cs=[1]) for _ in range(11)]
+    B = [Core(1, 1, 1, k=0, cs=[1]) for _ in range(21)]
+    J.append(('accuracy', [tt_desc(A), tt_desc(B)]))
+    # --- shift law
+    for _ in range(6 * mult):
+        d = rng.choice([2, 3, 6, 25, 120])
+        j, s = rng.randrange(d), rng.choice([-300, -100, -7, -1, 1, 7, 100, 300])
+        if rng.random() < 0.5:
+            Y1 = gen_float(rng, d, rng.choice(['up', 'down', 'mixed']), rmax=3, nmax=2)
+            Y2 = None if rng.random() < 0.5 else tt_desc(gen_float(rng, d, 'mixed', rmax=3, nmax=2, like=Y1))
+        else:
+            Y1, Y2 = gen_r1_pair(rng, d, rng.choice(['up', 'down', 'mixed']))
+            Y2 = tt_desc(Y2)
+        J.append(('shift', [tt_desc(Y1), Y2, j, s]))
+    # --- orthogonalize / truncate with use_stab
+    for d, mode in [(2, 'up'), (2, 'tiny'), (3, 'down'), (6, 'mixed'), (40, 'up'), (120, 'down'), (dbig, 'mixed')] + \
+            [(rng.randint(2, 30), rng.choice(['up', 'down', 'mixed'])) for _ in range(2 * mult)]:
+        Y = gen_any(rng, d, mode, rmax=3 if d <= 40 else 2)
+        J.append(('orth', [tt_desc(Y), rng.choice([0, d - 1, rng.randrange(d)])]))
+    J.append(('orth', [tt_desc(gen_small(rng, 3, 'unit')), 3]))
+    J.append(('orth', [tt_desc(with_zero_core(gen_float(rng, 4, 'mixed'), 1)), 3]))
+    for d, mode, e in [(2, 'up', 1e-2), (3, 'down', 1e-5), (4, 'tiny', 1e-3), (10, 'mixed', 1e-2), (40, 'up', 1e-4), (dbig // 2, 'down', 1e-2)] + \
+            [(rng.randint(2, 20), rng.choice(['up', 'down', 'mixed']), rng.choice([1e-1, 1e-3, 1e-5])) for _ in range(2 * mult)]:
+        Y = gen_any(rng, d, mode, rmax=3 if d <= 40 else 2)
+        J.append(('truncate', [tt_desc(Y), e, None, rng.random() < 0.7]))
+    # long chains: the exponent p collected by the orthogonalisation is spread over d > 1024 cores; the total exponent
+    # is moved around by an extra factor 2 on the first m cores (p mod d takes values all over 0..d-1)
+    for d in ([1500, 2400] if not (deep or th) else [1100, 1500, 2000, 3000]):
+        Y = gen_float(rng, d, rng.choice(['up', 'down', 'unit']), rmax=2, nmax=2)
+        for m in ([rng.randrange(d // 3), d // 3 + rng.randrange(d // 3), (2 * d) // 3 + rng.randrange(d // 3)]
+                  if not (deep or th) else [0, d // 5, (3 * d) // 5, (4 * d) // 5]):
+            Ym = scaled(Y, [1 if j < m else 0 for j in range(d)])
+            J.append(('truncate', [tt_desc(Ym), 1e-6, None, True, not (th and m == 0)]))
+    J.append(('truncate', [tt_desc(gen_float(rng, 5, 'mixed', rmax=3)), 1e-8, 1, True]))
+    J.append(('truncate', [tt_desc(with_zero_core(gen_float(rng, 4, 'mixed'), 2)), 1e-3, None, True]))
+    return J
+
+
+def search(R, ctx, deep, hints):
+    tn = C.import_teneva()
+    rng, th = ctx['rng'], ctx['thorough']
+    jobs = []
+    for h in hints[:40]:
+        jobs += hint_jobs(h)
+    nh = len(jobs)
+    jobs += search_jobs(rng, th, deep)
+    fails, by_kind, nknown = [], {}, 0
+    for n, job in enumerate(jobs):
+        kind, inp, key = job if len(job) == 3 else job + (None,)
+        by_kind[kind] = by_kind.get(kind, 0) + 1
+        f = _run(tn, kind, inp, key)
+        if not f:
+            continue
+        if not f.get('finding_key') and underflow_family(tn, kind, inp):
+            f['finding_key'] = KEY_UNDERFLOW
+        if f.get('finding_key'):
+            nknown += 1
+        else:
+            small = shrink(tn, kind, inp)
+            if small is not inp:
+                f = _run(tn, kind, small) or f
+        f['from_hint'] = n < nh
+        fails.append(f)
+        if len([x for x in fails if not x.get('finding_key')]) >= 5:
+            break
+    R.search.append(dict(name='big-integer reference of every clause on the implementation', evaluations=sum(by_kind.values()),
+                         failures=len(fails) - nknown, deep=deep, by_kind=by_kind, from_hints=nh, known_finding_hits=nknown))
+    return fails
+
+
+def json_short(x, n=600):
+    import json
+    s = json.dumps(x, default=str)
+    return s if len(s) <= n else s[:n] + '...'
+
+
 def replay(data):
+    tn = C.import_teneva()
+    p = data.get('payload')
+    print(data.get('what'))
+    if isinstance(p, dict) and p.get('kind') in CHECKS:
+        f = _run(tn, p['kind'], p['input'], p.get('finding_key'))
+        print('input:', json_short(p['input'], 2000))
+        print('replayed:', {k: v for k, v in (f or {}).items() if k not in ('input',)} or 'no failure')
+        return 1 if f else 0
+    # a broken proof / correspondence without a failing input: re-run the hinted inputs through the oracles
+    still = 0
+    for h in (p or {}).get('hints', []) if isinstance(p, dict) else []:
+        for kind, inp in hint_jobs(h):
+            f = _run(tn, kind, inp)
+            if f:
+                still += 1
+                print('hint fails:', kind, f['what'])
+    print('broken:', (p or {}).get('broken') if isinstance(p, dict) else p)
+    print('no replayable input in this file: re-run ./check C16 to re-evaluate the proof obligations and the correspondence'
+          if not still else f'{still} hinted inputs still fail')
     return 1
